@@ -533,3 +533,29 @@ func VerifDecodedIsEncoded(d []byte, o Options, r Options, defs map[OptionID]Opt
 //
 //@ func (Options) Path() (p string, err error)
 //@   trusted
+
+// ---- C15: setting a path is all-or-nothing until the first segment is written -------------------------
+//
+// setPath refuses (empty segment too long, buffer too small) BEFORE it touches the option list: on such
+// an error the caller gets back exactly the list it passed in, unchanged (pool.Message retries with a
+// bigger buffer on ErrTooSmall and must find its options as they were).
+//
+//@ func GetPathBufferSize(path string) (size int, err error)
+//@   trusted
+//@   ensures err == nil ==> 0 <= size
+//
+//@ func (Options) AddString(buf []byte, id OptionID, str string) (r Options, n int, err error)
+//@   trusted
+//@   modifies options[0 : cap(options)], buf[0 : len(buf)]
+//@   ensures (r[0:0] == options[0:0] && cap(r) == cap(options)) || fresh(r)
+//@   ensures err == nil ==> 0 <= n && n <= len(buf)
+//
+//@ func setPath(options Options, optionID OptionID, buf []byte, path string) (r Options, n int, err error)
+//@   requires sortedOpts(options) && len(path) < 1099511627776
+//@   modifies options[0 : cap(options)], buf[0 : len(buf)]
+//@   ensures [empty-path-noop] len(path) == 0 ==> r == options && n == 0 && err == nil && (forall i int :: {r[i].ID} 0 <= i && i < len(options) ==> r[i] == old(options[i]))
+//@   ensures [refused-before-anything-changes] err != nil && notCalled(AddString) ==> r == options && (forall i int :: {r[i].ID} 0 <= i && i < len(options) ==> r[i] == old(options[i]))
+//@   loop 0:
+//@     modifies options[0 : cap(options)], buf[0 : len(buf)]
+//@     invariant [bounds] 0 <= start && 0 <= encoded && encoded <= len(buf)
+//@     invariant [own-list] (o[0:0] == options[0:0] && cap(o) == cap(options)) || fresh(o)
